@@ -234,6 +234,89 @@ func genDescs(g *core.G, lg *lat.Gen) {
 		g.Emit("descx " + s(lat.Struct(lat.Mem("a", false, lat.Tup(es)))) + " " + s(lat.Struct(lat.Mem("a", false, lat.Tup(as)))) + " tm ()")
 	}
 
+	// ---- (3b) descriptions with SEVERAL mismatches: two planted mutations side by side, Variants of containers (every member
+	// reports below its own `variant` element, merged only when kinds and canonical paths agree), the built-in aliases against
+	// collections with members they reject
+	for i := 0; i < 1500*g.Scale; i++ {
+		e1, _, p1 := pg.build(1+g.Rng.Intn(2), pathB{{"e", "a"}})
+		e2, m2, p2 := pg.build(1+g.Rng.Intn(2), pathB{{"e", "b"}})
+		x, y := p1[g.Rng.Intn(len(p1))], p2[g.Rng.Intn(len(p2))]
+		g.Emit("descx " + s(lat.Struct(lat.Mem("a", false, e1), lat.Mem("b", false, e2))) + " " +
+			s(lat.Struct(lat.Mem("a", false, x.a), lat.Mem("b", false, y.a))) + " " + x.kind + " " + x.path.sexp())
+		g.Emit("descx " + s(lat.Struct(lat.Mem("a", false, e1), lat.Mem("b", false, e2))) + " " +
+			s(lat.Struct(lat.Mem("a", false, x.a), lat.Mem("b", false, y.a))) + " " + y.kind + " " + y.path.sexp())
+		// Variants of containers
+		var ev lat.Ty
+		switch g.Rng.Intn(5) {
+		case 0:
+			ev = lat.Var(e1, e2)
+		case 1:
+			ev = lat.Opt(lat.Var(e1, e2))
+		case 2:
+			ev = lat.Var(e1, lat.Var(e2, lat.Int(0, 5)))
+		case 3:
+			ev = lat.Var(lat.Opt(e1), lat.NU(e2), e2)
+		default:
+			ev = lat.Struct(lat.Mem("a", true, lat.Var(e1, e2)), lat.Mem("b", false, lat.Opt(lat.Var(e2, lat.Atom("str")))))
+		}
+		switch g.Rng.Intn(4) {
+		case 0:
+			g.Emit("descs " + s(ev) + " " + s(x.a))
+		case 1:
+			g.Emit("descs " + s(ev) + " " + s(y.a))
+		case 2:
+			g.Emit("descs " + s(ev) + " " + s(lat.Struct(lat.Mem("a", false, x.a), lat.Mem("b", false, y.a))))
+		default:
+			g.Emit("descs " + s(ev) + " " + s(m2))
+		}
+	}
+	dataBad := []lat.Ty{lat.Rx(""), lat.Atom("bin"), lat.Sens(lat.Atom("any")), lat.Tspan(0, 5), lat.TypeOf(lat.Atom("any")), lat.Atom("default"), lat.Obj(1)}
+	dataOK := []lat.Ty{lat.Int(1, 2), lat.Atom("str"), lat.Atom("undef"), lat.Flt(0, 1), lat.Bool(-1), lat.StrVal("a")}
+	for i := 0; i < 600*g.Scale; i++ {
+		al := lat.Atom([]string{"data", "rdata", "sdata", "scalar"}[g.Rng.Intn(4)])
+		n := 1 + g.Rng.Intn(3)
+		ts := make([]lat.Ty, n)
+		ms := make([]lat.Member, n)
+		for j := range ts {
+			if g.Rng.Intn(2) == 0 {
+				ts[j] = pick(dataBad)
+			} else {
+				ts[j] = pick(dataOK)
+			}
+			if g.Rng.Intn(4) == 0 {
+				ts[j] = lat.Tup([]lat.Ty{ts[j], pick(dataBad)})
+			}
+			ms[j] = lat.Mem(plantNames[j], g.Rng.Intn(3) == 0, ts[j])
+		}
+		var a lat.Ty
+		switch g.Rng.Intn(4) {
+		case 0:
+			a = lat.Tup(ts)
+		case 1:
+			a = lat.Struct(ms...)
+		case 2:
+			a = lat.Arr(ts[0], 0, 3)
+		default:
+			a = lat.Hash(pick([]lat.Ty{lat.Atom("str"), lat.Int(1, 2)}), ts[0], 0, 3)
+		}
+		var e lat.Ty
+		switch g.Rng.Intn(5) {
+		case 0:
+			e = al
+		case 1:
+			e = lat.Opt(al)
+		case 2:
+			e = lat.Var(al, lat.Rx(""))
+		case 3:
+			e = lat.Arr(al, 0, 5)
+			a = lat.Tup([]lat.Ty{a, ts[0]})
+		default:
+			e = lat.Struct(lat.Mem("a", false, al), lat.Mem("b", true, lat.Hash(lat.Atom("str"), al, 0, 5)))
+			a = lat.Struct(lat.Mem("a", false, a), lat.Mem("b", false, lat.Struct(ms...)))
+		}
+		g.Emit("descs " + s(e) + " " + s(a))
+	}
+
 	// ---- (4) malformed (implementation only)
 	odd := []string{"(int 2 1)", "(var str)", "(struct (x f str))", "(arr any 3 1)", "(struct (x27 f str))"}
 	for i := 0; i < 100; i++ {
